@@ -845,8 +845,10 @@ pub mod sync {
     // ------------------------------------------------------------------- mpsc
     /// Channels whose blocking operations (`recv`, `recv_timeout`, `send` on a full bounded
     /// channel) are "blocked" scheduling points with timeouts on the simulated clock. The queues
-    /// are std's own. Rendezvous channels (`sync_channel(0)`) need a receiver parked in the kernel
-    /// to complete a send, which polling cannot provide: they keep std's blocking behaviour.
+    /// are std's own, except for rendezvous channels (`sync_channel(0)`): std completes such a send
+    /// only while a receiver is parked in the kernel, which a polling receiver never is, so the
+    /// facade has a small rendezvous channel of its own (same contract: `send` returns once the
+    /// value has been taken; `try_send` succeeds only if a receiver is waiting).
     pub mod mpsc {
         pub use rstd::sync::mpsc::{RecvError, RecvTimeoutError, SendError, TryRecvError, TrySendError};
 
@@ -858,21 +860,157 @@ pub mod sync {
         pub struct Sender<T>(real::Sender<T>);
         pub struct SyncSender<T> {
             real: real::SyncSender<T>,
-            rendezvous: bool,
+            /// `sync_channel(0)`: the facade's own rendezvous channel (std's is not used then)
+            rv: Option<Arc<Rv<T>>>,
         }
         pub struct Receiver<T> {
             real: real::Receiver<T>,
-            rendezvous: bool,
+            rv: Option<Arc<Rv<T>>>,
         }
 
         pub fn channel<T>() -> (Sender<T>, Receiver<T>) {
             let (s, r) = real::channel();
-            (Sender(s), Receiver { real: r, rendezvous: false })
+            (Sender(s), Receiver { real: r, rv: None })
         }
 
         pub fn sync_channel<T>(bound: usize) -> (SyncSender<T>, Receiver<T>) {
+            if bound == 0 {
+                // std's rendezvous channel completes a send only while a receiver is parked in
+                // the kernel, which a polling receiver never is: the facade brings its own
+                let rv = Arc::new(Rv {
+                    st: rstd::sync::Mutex::new(RvState { item: None, gen: 0, receivers_waiting: 0, senders: 1, receiver_alive: true }),
+                    cv: rstd::sync::Condvar::new(),
+                });
+                let (s, r) = real::sync_channel(1);
+                return (SyncSender { real: s, rv: Some(rv.clone()) }, Receiver { real: r, rv: Some(rv) });
+            }
             let (s, r) = real::sync_channel(bound);
-            (SyncSender { real: s, rendezvous: bound == 0 }, Receiver { real: r, rendezvous: bound == 0 })
+            (SyncSender { real: s, rv: None }, Receiver { real: r, rv: None })
+        }
+
+        use rstd::sync::Arc;
+
+        struct RvState<T> {
+            /// the value in flight (placed by a sender that is now waiting for it to be taken)
+            item: Option<T>,
+            /// number of hand-overs completed so far
+            gen: u64,
+            receivers_waiting: usize,
+            senders: usize,
+            receiver_alive: bool,
+        }
+
+        struct Rv<T> {
+            st: rstd::sync::Mutex<RvState<T>>,
+            cv: rstd::sync::Condvar,
+        }
+
+        impl<T> Rv<T> {
+            fn lock(&self) -> rstd::sync::MutexGuard<'_, RvState<T>> {
+                self.st.lock().unwrap_or_else(|e| e.into_inner())
+            }
+            /// One round of waiting: under the scheduler for a simulated task, on the real
+            /// condition variable (briefly) for any other thread.
+            fn pause<'a>(&'a self, g: rstd::sync::MutexGuard<'a, RvState<T>>) -> rstd::sync::MutexGuard<'a, RvState<T>> {
+                if is_task() {
+                    drop(g);
+                    if !blocked("sync:mpsc_rendezvous_blocked") {
+                        rstd::thread::sleep(Duration::from_micros(200));
+                    }
+                    self.lock()
+                } else {
+                    self.cv.wait_timeout(g, Duration::from_millis(1)).map(|(g, _)| g).unwrap_or_else(|e| e.into_inner().0)
+                }
+            }
+            fn send(&self, t: T) -> Result<(), SendError<T>> {
+                point("sync:mpsc_send");
+                let mut g = self.lock();
+                // wait for the slot (another sender's value may be in flight)
+                loop {
+                    if !g.receiver_alive {
+                        return Err(SendError(t));
+                    }
+                    if g.item.is_none() {
+                        break;
+                    }
+                    g = self.pause(g);
+                }
+                g.item = Some(t);
+                let my = g.gen;
+                self.cv.notify_all();
+                // rendezvous: return only once a receiver has taken it
+                loop {
+                    if g.gen != my {
+                        return Ok(());
+                    }
+                    if !g.receiver_alive {
+                        return match g.item.take() {
+                            Some(t) => Err(SendError(t)),
+                            None => Ok(()),
+                        };
+                    }
+                    g = self.pause(g);
+                }
+            }
+            fn try_send(&self, t: T) -> Result<(), TrySendError<T>> {
+                point("sync:mpsc_send");
+                let mut g = self.lock();
+                if !g.receiver_alive {
+                    return Err(TrySendError::Disconnected(t));
+                }
+                if g.item.is_none() && g.receivers_waiting > 0 {
+                    g.item = Some(t);
+                    self.cv.notify_all();
+                    return Ok(());
+                }
+                Err(TrySendError::Full(t))
+            }
+            fn take(&self, g: &mut rstd::sync::MutexGuard<'_, RvState<T>>) -> Option<T> {
+                let v = g.item.take();
+                if v.is_some() {
+                    g.gen = g.gen.wrapping_add(1);
+                    self.cv.notify_all();
+                }
+                v
+            }
+            fn try_recv(&self) -> Result<T, TryRecvError> {
+                point("sync:mpsc_recv");
+                let mut g = self.lock();
+                match self.take(&mut g) {
+                    Some(v) => Ok(v),
+                    None if g.senders == 0 => Err(TryRecvError::Disconnected),
+                    None => Err(TryRecvError::Empty),
+                }
+            }
+            /// `deadline`: simulated nanoseconds for a task, real time otherwise.
+            fn recv(&self, timeout: Option<Duration>) -> Result<T, RecvTimeoutError> {
+                point("sync:mpsc_recv");
+                let sim_deadline = timeout.and_then(|d| clock(0).map(|n| n.saturating_add(d.as_nanos().min(u64::MAX as u128) as u64)));
+                let real_deadline = timeout.map(|d| rstd::time::Instant::now() + d);
+                let mut g = self.lock();
+                g.receivers_waiting += 1;
+                self.cv.notify_all();
+                let r = loop {
+                    if let Some(v) = self.take(&mut g) {
+                        break Ok(v);
+                    }
+                    if g.senders == 0 {
+                        break Err(RecvTimeoutError::Disconnected);
+                    }
+                    if timeout.is_some() {
+                        let expired = match (is_task(), sim_deadline) {
+                            (true, Some(dl)) => clock(0).map(|n| n >= dl).unwrap_or(true),
+                            _ => real_deadline.map(|d| rstd::time::Instant::now() >= d).unwrap_or(false),
+                        };
+                        if expired {
+                            break Err(RecvTimeoutError::Timeout);
+                        }
+                    }
+                    g = self.pause(g);
+                };
+                g.receivers_waiting -= 1;
+                r
+            }
         }
 
         impl<T> Sender<T> {
@@ -894,7 +1032,10 @@ pub mod sync {
 
         impl<T> SyncSender<T> {
             pub fn send(&self, t: T) -> Result<(), SendError<T>> {
-                if self.rendezvous || !is_task() {
+                if let Some(rv) = &self.rv {
+                    return rv.send(t);
+                }
+                if !is_task() {
                     point("sync:mpsc_send");
                     return self.real.send(t);
                 }
@@ -914,13 +1055,36 @@ pub mod sync {
                 }
             }
             pub fn try_send(&self, t: T) -> Result<(), TrySendError<T>> {
+                if let Some(rv) = &self.rv {
+                    return rv.try_send(t);
+                }
                 point("sync:mpsc_send");
                 self.real.try_send(t)
             }
         }
         impl<T> Clone for SyncSender<T> {
             fn clone(&self) -> Self {
-                SyncSender { real: self.real.clone(), rendezvous: self.rendezvous }
+                if let Some(rv) = &self.rv {
+                    rv.lock().senders += 1;
+                }
+                SyncSender { real: self.real.clone(), rv: self.rv.clone() }
+            }
+        }
+        impl<T> Drop for SyncSender<T> {
+            fn drop(&mut self) {
+                if let Some(rv) = &self.rv {
+                    let mut g = rv.lock();
+                    g.senders = g.senders.saturating_sub(1);
+                    rv.cv.notify_all();
+                }
+            }
+        }
+        impl<T> Drop for Receiver<T> {
+            fn drop(&mut self) {
+                if let Some(rv) = &self.rv {
+                    rv.lock().receiver_alive = false;
+                    rv.cv.notify_all();
+                }
             }
         }
         impl<T> fmt::Debug for SyncSender<T> {
@@ -931,11 +1095,17 @@ pub mod sync {
 
         impl<T> Receiver<T> {
             pub fn try_recv(&self) -> Result<T, TryRecvError> {
+                if let Some(rv) = &self.rv {
+                    return rv.try_recv();
+                }
                 point("sync:mpsc_recv");
                 self.real.try_recv()
             }
             pub fn recv(&self) -> Result<T, RecvError> {
-                if self.rendezvous || !is_task() {
+                if let Some(rv) = &self.rv {
+                    return rv.recv(None).map_err(|_| RecvError);
+                }
+                if !is_task() {
                     point("sync:mpsc_recv");
                     return self.real.recv();
                 }
@@ -961,7 +1131,10 @@ pub mod sync {
                 }
             }
             pub fn recv_timeout(&self, timeout: Duration) -> Result<T, RecvTimeoutError> {
-                if self.rendezvous || !is_task() {
+                if let Some(rv) = &self.rv {
+                    return rv.recv(Some(timeout));
+                }
+                if !is_task() {
                     point("sync:mpsc_recv");
                     return self.real.recv_timeout(timeout);
                 }
